@@ -156,6 +156,10 @@ def _compile_path_pattern(pattern, mode=S_REWRITE):
     full_pattern += sep.join(processed)
     if mode != S_STRICT:
         full_pattern += '/*'
+    elif re.match(full_pattern + '$', ''):
+        # every element is an absent-able binding: the root path is
+        # the empty assignment (a request path is never '')
+        full_pattern = '^(?:%s|/)' % full_pattern[1:]
     regex = re.compile(full_pattern + '$')
     return regex, var_converter_map
 
